@@ -20,6 +20,16 @@ impl Bytes {
     #[verifier::external_body]
     pub fn vx_from_vec(v: Vec<u8>) -> (r: Bytes) ensures r@ == v@ { Bytes { v } }
     #[verifier::external_body]
+    pub fn split_to(&mut self, at: usize) -> (r: Bytes)
+        requires at <= old(self)@.len()
+        ensures r@ == old(self)@.subrange(0, at as int), final(self)@ == old(self)@.subrange(at as int, old(self)@.len() as int)
+    { unimplemented!() }
+    #[verifier::external_body]
+    pub fn split_off(&mut self, at: usize) -> (r: Bytes)
+        requires at <= old(self)@.len()
+        ensures final(self)@ == old(self)@.subrange(0, at as int), r@ == old(self)@.subrange(at as int, old(self)@.len() as int)
+    { unimplemented!() }
+    #[verifier::external_body]
     pub fn slice(&self, r: std::ops::Range<usize>) -> (o: Bytes)
         requires r.start <= r.end <= self@.len()
         ensures o@ == self@.subrange(r.start as int, r.end as int)
